@@ -53,7 +53,12 @@ class JSONSheetReader(AbstractSheetReader):
         self._sheets = {}
         for name, content in data["sheets"].items():
             table = tablib.Dataset()
-            table.dict = content
+            if isinstance(content, dict):
+                table.headers = content["headers"]
+                for row in content["rows"]:
+                    table.append(row)
+            else:
+                table.dict = content
             self._sheets[name] = Sheet(
                 reader=self, name=name, table=drop_empty_rows(table)
             )
